@@ -144,14 +144,14 @@ Definition needs_table (x : wdb) (n : fname) : bool :=
   existsb (fun c => mem_name n (map t_name (c_tabs c))) (x_ckpts x).
 
 (* does the cleanup of object o of database x delete the file?  Created tables: always.  Tables from a document: when
-   ExclusivelyOwnsTable answers (true, nil): full ownership, or own range contains the table's key groups, or no neighbour
-   needs it and none failed (after repair D10 an error keeps the file). *)
+   ExclusivelyOwnsTable answers (true, nil): AllDataOwnership, or no neighbour needs it and none failed (after repair D10 an
+   error keeps the file; after repair D36 no key-range shortcut skips the question). *)
 Definition cleanup_deletes (w : world) (x : wdb) (o : tobj) : bool :=
   if negb (o_fromdoc o) then true else
   match x_own x with
   | OwnAll => true
-  | OwnRange lo hi =>
-      if (lo <=? o_lo o) && (o_hi o + 1 <=? hi) then true else
+  | OwnRange _ _ =>
+      (* every neighbour is asked whatever the key range of the table (repair D36) *)
       match x_nb x with
       | NbNone => true
       | NbNeeds => false
